@@ -11,4 +11,14 @@ export VERIF_ROOT="$ROOT"
   flock 9
   ./setup.sh >/dev/null 2>"$ROOT/target/setup.err" || { cat "$ROOT/target/setup.err"; tail -5 "$ROOT/target/build-harness.log" "$ROOT/target/build-cli.log" 2>/dev/null; exit 2; }
 ) 9>"$ROOT/.build.lock" || { echo "INCONCLUSIVE property=${1:-?} build failed"; exit 2; }
-exec "$ROOT/target/harness/release/vcheck" "$@"
+"$ROOT/target/harness/release/vcheck" "$@"
+code=$?
+# thorough tier: additional coverage-guided fuzzing for the in-process targets (DESIGN §6)
+if [ $code -eq 0 ] && [ "${2:-}" = "thorough" ] && [ "${3:-}" != "--replay" ] && [ "${VERIF_NO_FUZZ:-0}" != "1" ]; then
+  case "$1" in
+    C01|c01) "$ROOT/tools/fuzz_stage.sh" C01 c01_splitkmer || code=1 ;;
+    C04|c04) "$ROOT/tools/fuzz_stage.sh" C04 c04_alnwriter || code=1 ;;
+    C16|c16) "$ROOT/tools/fuzz_stage.sh" C16 c16_bits || code=1 ;;
+  esac
+fi
+exit $code
